@@ -200,6 +200,8 @@ def run(ctx):
           ("MC_legacy_quick.cfg", "I=>P legacy HAR generator bodies")] if not T else \
          [("MC_json_T1.cfg", "I=>P ObfuscateJSON incl. null, 3 notations, pairs"), ("MC_json_T2.cfg", "I=>P keys a,b,body, paths <= 3"),
           ("MC_json_T3.cfg", "I=>P depth 3"), ("MC_har_T4.cfg", "I=>P HAR collector, keys a,b,body"),
+          ("MC_json_T5.cfg", "I=>P depth 3, arrays <= 2, single plain exclusions up to length 3"),
+          ("MC_json_T6.cfg", "I=>P depth 3, pairs of exclusions"),
           ("MC_json_quick.cfg", "I=>P ObfuscateJSON"), ("MC_har_quick.cfg", "I=>P HAR collector bodies"),
           ("MC_legacy_quick.cfg", "I=>P legacy HAR generator bodies")]
     runs = [(cfg, label, None) for cfg, label in ex] + [
